@@ -253,15 +253,17 @@ func (cp *connectionPoolImpl) Put(pc PooledConnect) {
 
 // SetCapacity alert the size of the pool at runtime
 func (cp *connectionPoolImpl) SetCapacity(capacity int) (err error) {
-	cp.mu.Lock()
-	defer cp.mu.Unlock()
-	if cp.connections != nil {
-		err = cp.connections.SetCapacity(capacity)
+	// cp.mu is not held while the pool is resized: a resize can wait for connections
+	// to be returned (or for a Close in progress), and Get/Put/Recycle need cp.mu.
+	if p := cp.pool(); p != nil {
+		err = p.SetCapacity(capacity)
 		if err != nil {
 			return err
 		}
 	}
+	cp.mu.Lock()
 	cp.capacity = capacity
+	cp.mu.Unlock()
 	return nil
 }
 
